@@ -95,24 +95,19 @@ func (ll *LevelList) Get(key []byte) (kv.Entry, error) {
 }
 
 func (ll *LevelList) ScanPrefix(prefix []byte, errOut *error) iter.Seq[kv.Entry] {
+	// Return the merged entries without deleted records
+	return kv.WithoutDeletes(ll.ScanPrefixWithDeletes(prefix, errOut))
+}
+
+// ScanPrefixWithDeletes merges the tables keeping the newest version of each
+// key, including deleted entries.
+func (ll *LevelList) ScanPrefixWithDeletes(prefix []byte, errOut *error) iter.Seq[kv.Entry] {
 	tables := slices.Collect(ll.AllTablesForPrefix(prefix))
 	iters := make([]iter.Seq[kv.Entry], len(tables))
 	for i, table := range tables {
 		iters[i] = table.ScanPrefix(prefix, errOut)
 	}
-
-	// Return the merged entries without deleted records
-	return func(yield func(kv.Entry) bool) {
-		for entry := range kv.MergeEntries(iters) {
-			// Skip deleted entries
-			if entry.IsDelete() {
-				continue
-			}
-			if !yield(entry) {
-				return
-			}
-		}
-	}
+	return kv.MergeEntries(iters)
 }
 
 // A worst case estimate of the amount of extra space used. Zero means
